@@ -423,10 +423,16 @@ def _counters(ctx, rule):
     return c05.r6_counter_pairing(ctx, rule)
 
 
+def _prince_tally(ctx, rule):
+    # the PRINCE list is one of the observed lists: its counts are occurrences of labels, not passwords containing them (seed C06-i)
+    from . import c17
+    return c17.r4_prince_tally(ctx, rule)
+
+
 def rules(tier):
     return [('C06.R1', r1_relative_frequency), ('C06.R2', r2_all_items_written), ('C06.R3', c07.r6_wipe_before_write),
             ('C06.R4', r4_coverage_algebra), ('C06.R5', r5_supported_only), ('C06.R6', r6_determinism),
-            ('C06.R7', c07.r1b_validate_final_value), ('C06.R8', r8_memo), ('C06.R9', r9_coverage_plumbing), ('C06.R10', _counters)]
+            ('C06.R7', c07.r1b_validate_final_value), ('C06.R8', r8_memo), ('C06.R9', r9_coverage_plumbing), ('C06.R10', _counters), ('C06.R11', _prince_tally)]
 
 
 META = {
